@@ -33,6 +33,8 @@ def main():
     if "--tier" in sys.argv:
         tier = sys.argv[sys.argv.index("--tier") + 1]
     src = "/tmp/seed-%s-out" % sid
+    if "--src" in sys.argv:
+        src = sys.argv[sys.argv.index("--src") + 1]
     name = sid
     if "--name" in sys.argv:
         name = sys.argv[sys.argv.index("--name") + 1]
@@ -53,7 +55,7 @@ def main():
         shutil.copy(os.path.join(src, demofile), demodst)
         # the demonstration tests are named TestSeed<ID>...: build the command ourselves
         # (the agents' "run" strings contain prose and their own wrappers)
-        run = "go test -vet=off -count=1 -run TestSeed%s %s" % (sid, "." if pkgdir == "." else "./%s/" % pkgdir)
+        run = "go test -vet=off -count=1 -run 'TestSeed' %s" % ("." if pkgdir == "." else "./%s/" % pkgdir)
         runcmd = "unshare -n -- bash -c 'ip link set lo up 2>/dev/null; %s'" % run.replace("'", "'\\''")
         rc, out = sh(runcmd, cwd=wt)
         rec["steps"]["demo_passes_without_change"] = rc == 0
